@@ -95,7 +95,7 @@ def run(prop, tier, replay=None):
             v["id"] = i + 1
             v["seed"] = s
         states, trans = res.distinct, res.generated
-        log(f"GEN Generate: {len(vectors)} (output shape, exit code, format, escaper, path) cases with <= {k} lines over 24 line classes, {res.wall:.0f}s")
+        log(f"GEN Generate: {len(vectors)} (output shape, exit code, format, escaper, path) cases with <= {k} lines over 25 line classes, {res.wall:.0f}s")
     vpath, rpath = os.path.join(work, "vectors.ndjson"), os.path.join(work, "records.ndjson")
     write_ndjson(vpath, vectors)
     harness(["gen-replay", "--vectors", vpath, "--records", rpath, "--seed", s])
@@ -154,7 +154,11 @@ def run(prop, tier, replay=None):
         r = byid[rid]
         o = r["obs"]
         culprits = sorted({c for c in r["lines"] if (r["fmt"], c) in single_any})
-        if "e2e" in r and not r["e2e"]["ok"]:
+        if "e2e" in r and not r["e2e"]["ok"] and r["path"] == "convert" and r["fmt"] == "cram" and r["e2e"]["stage"] == "test-after-convert" \
+                and bytes(r["output_bytes"]).find(b"\r\n") >= 0:
+            # Markdown -> Cram: the source ran with CR LF normalised, the Cram document (which cannot carry configuration) keeps CR LF
+            keys = ["end-to-end:convert:md-to-cram:output-with-CRLF-line-ending"]
+        elif "e2e" in r and not r["e2e"]["ok"]:
             specials = sorted({c for c in r["lines"] if c != "plain"})
             keys = [f"end-to-end:{r['path']}:{r['e2e']['stage']}:fmt={r['fmt']};classes={'+'.join(specials) or 'plain'};{'no-final-eol;' if not r['lastEol'] else ''}esc={r['esc']};code={r['code']}"]
         elif culprits:
